@@ -8,10 +8,10 @@ EXTENDS TMSwitch, TraceKit
 
 Trace == LoadTrace("trace.ndjson")
 
-VARIABLES l, S, viol, drift
-vars == <<l, S, viol, drift>>
+VARIABLES l, S, ever, viol, drift      \* ever: instances that have been in the PeerSet (observed)
+vars == <<l, S, ever, viol, drift>>
 
-Init == l = 1 /\ S = InitState /\ viol = {} /\ drift = {}
+Init == l = 1 /\ S = InitState /\ ever = {} /\ viol = {} /\ drift = {}
 
 ObsSet(e) == {e.post.thr[k] : k \in DOMAIN e.post.thr}
 HasObs(e, name) == \E o \in ObsSet(e) : o.name = name
@@ -54,9 +54,6 @@ Differences(S1, e, cbo) ==
   \cup (IF cbo # S1.cb THEN {"callbacks"} ELSE {})
   \cup (IF ~ThreadsAgree(S1, e) THEN {"threads"} ELSE {})
 
-IpOfAddr(e, a) == IF \E k \in DOMAIN e.post.inst : e.post.inst[k].addr = a
-                    THEN (CHOOSE k \in DOMAIN e.post.inst : e.post.inst[k].addr = a).ip  \* never evaluated: see below
-                    ELSE "?"
 IpFor(e, a) == IF \E k \in DOMAIN e.post.inst : e.post.inst[k].addr = a
                  THEN e.post.inst[CHOOSE k \in DOMAIN e.post.inst : e.post.inst[k].addr = a].ip ELSE "?"
 
@@ -83,7 +80,10 @@ Class(S0, c, t, p) ==
        [] p = "PeerSetCoversActive" /\ other /\ th.k = "stop" /\ th.pc = "Rem" ->
             IF Has(S0.cb[th.cur][th.i], "A") THEN "stale_stop_evicts_new_instance_from_PeerSet"
             ELSE "removal_of_never_added_instance_evicts_other_instance_from_PeerSet"
-       [] p = "MembersHaveConn" /\ other /\ th.pc \in {"Cleanup", "CleanupF"} -> kp \o ":drops_conn_entry_of_other_instance"
+       [] p = "PeerSetCoversActive" /\ c.name = "Step" /\ th.pc = "AddPeer" /\ th.i \in ever /\ Running(S0, th.i) /\ S0.peers[th.id] # th.i ->
+            "AddPeer_for_running_instance_evicted_from_PeerSet"
+       [] p = "MembersHaveConn" /\ c.name = "Step" /\ th.pc \in {"Cleanup", "CleanupF"} /\ th.i >= 1
+            /\ (\E j \in Insts(S0) : j # th.i /\ S0.inst[j].addr = S0.inst[th.i].addr /\ Live(S0, j)) -> kp \o ":drops_conn_entry_of_other_instance"
        [] OTHER -> kp
 
 StepCmd(e) ==
@@ -108,11 +108,12 @@ StepCmd(e) ==
       S2 == Install(S1, e, cbo)
       new == Failing(S2) \ Failing(S)
   IN /\ S' = S2
+     /\ ever' = ever \cup ({e.post.peers[n] : n \in NodeIDs} \ {0})
      /\ drift' = drift \cup {[l |-> l, what |-> d, spec |-> c.name] : d \in diff}
      /\ viol' = viol \cup {[l |-> l, inv |-> p, class |-> Class(S, c, t, p)] : p \in new}
 
 StepStress(e) ==
-  /\ S' = S /\ drift' = drift
+  /\ S' = S /\ drift' = drift /\ ever' = ever
   /\ viol' = viol
        \cup FailIf(e.maxDial > 1, [l |-> l, inv |-> "OneDialPerID", class |-> "concurrent_DialPeerWithAddress_same_id"])
        \cup FailIf(e.maxRec > 1, [l |-> l, inv |-> "OneReconnectLoop", class |-> "concurrent_reconnectToPeer_same_id"])
@@ -121,21 +122,21 @@ StepStress(e) ==
 Step1 ==
   /\ l <= Len(Trace)
   /\ LET e == Trace[l] IN
-       CASE e.ev = "Reset" -> /\ S' = InitState /\ viol' = viol
+       CASE e.ev = "Reset" -> /\ S' = InitState /\ viol' = viol /\ ever' = {}
                               /\ drift' = drift \cup FailIf(e.allowDupIP # AllowDupIP \/ e.sameIP # SameIP \/ e.maxInbound # MaxInbound,
                                                             [l |-> l, what |-> "run configuration differs from the trace cfg", spec |-> "-"])
          [] e.ev = "Cmd" -> StepCmd(e)
-         [] e.ev = "Skip" -> /\ S' = S /\ viol' = viol
+         [] e.ev = "Skip" -> /\ S' = S /\ viol' = viol /\ ever' = ever
                              /\ drift' = drift \cup {[l |-> l, what |-> "schedule not executable on the real code: " \o e.why, spec |-> e.c.name]}
          [] e.ev = "Stress" -> StepStress(e)
-         [] OTHER -> UNCHANGED <<S, viol, drift>>
+         [] OTHER -> UNCHANGED <<S, ever, viol, drift>>
   /\ l' = l + 1
 
 Finish ==
   /\ l = Len(Trace) + 1
   /\ WriteVerdict("verdict.json", Len(Trace), viol, drift)
   /\ l' = l + 1
-  /\ UNCHANGED <<S, viol, drift>>
+  /\ UNCHANGED <<S, ever, viol, drift>>
 
 Next == Step1 \/ Finish
 =============================================================================
